@@ -72,7 +72,7 @@ def judge_runs(chk, cases, obs, fuel=60):
     recs = []
     for c in cases:
         o = obs[c["id"]]
-        recs.append({"id": c["id"], "prog": c["prog"],
+        recs.append({"id": c["id"], **({"expect": c["expect_out"]} if "expect_out" in c else {"prog": c["prog"]}),
                      "off": {k: o["off"][k] for k in ("acc", "compiles", "out", "exc")},
                      "on": {k: o["on"][k] for k in ("acc", "compiles", "out", "exc")}})
     verdicts, states, trans = vlib.judge("RunJudge", "RunJudge.cfg", recs, chunk=8000, xss="1g", constants={"Fuel": fuel})
